@@ -83,11 +83,19 @@ def run(chk):
                           "expect": {"tokens": "(%d tokens)" % len(c["toks"])}})
     # (b) parser: edits of valid programs
     e1, e2 = edits(chk.tier, rnd)
-    res3 = common.run_tlc("FamMutate", "FamMutate.cfg", defines={"TIER": chk.tier, "EDITS1": tlaset(e1), "EDITS2": tlaset(e2)}, timeout=1800)
+    hdr = set()
+    full = 2 if chk.tier == "quick" else 3
+    for ln in range(0, full + 1):
+        for c in range(16 ** ln):
+            hdr.add(ln * 10000000 + c)
+    for ln, n in ((3, 500), (4, 500)) if chk.tier == "quick" else ((4, 20000), (5, 10000)):
+        for _ in range(n):
+            hdr.add(ln * 10000000 + rnd.randrange(16 ** ln))
+    res3 = common.run_tlc("FamMutate", "FamMutate.cfg", defines={"TIER": chk.tier, "EDITS1": tlaset(e1), "EDITS2": tlaset(e2), "HEADERS": tlaset(hdr)}, timeout=1800)
     chk.add_tlc(res3, "FamMutate")
     for n, c in enumerate(res3.cases):
         cases.append({"id": "mut-%d" % n, "stage": "parsetotal", "src": c["src"],
-                      "class": "mutant/seed%d/%d/%d" % (c["seed"], c["e1"] // 1000000, c["e2"] // 1000000),
+                      "class": ("header/%d" % c["seed"]) if c["seed"] < 0 else "mutant/seed%d/%d/%d" % (c["seed"], c["e1"] // 1000000, c["e2"] // 1000000),
                       "expect": {"claim": "program XOR non-empty located errors; no crash; terminates"}})
     for n, b in enumerate(BINARY):
         cases.append({"id": "bin-%d" % n, "stage": "parsetotal", "src": [{"bytes": b}], "class": "binary/%d" % n,
